@@ -219,7 +219,7 @@ class Replayer:
 
 
 def nproc_for(ck):
-    return max(2, min(12, (os.cpu_count() or 2) - 4))
+    return 6 if ck.tier == "quick" else 8
 
 
 # ----------------------------------------------------------------------------- role A
@@ -227,7 +227,7 @@ def role_a(ck: Check):
     """The algorithms as transition systems, checked by TLC against the definitions."""
     t = "t" if ck.tier == "thorough" else "q"
     t0 = time.time()
-    res = ck.tlc_expect_ok(MODULE, "MC_ArchTree_iter_fixed_%s.cfg" % t, timeout=2400,
+    res = ck.tlc_expect_ok(MODULE, "MC_ArchTree_iter_fixed_%s.cfg" % t, timeout=2400, workers=4,
                            required_actions=("Grow", "Start", "VisitLeaf", "VisitHier", "VisitFork"))
     ck.extra.setdefault("phase_wall_s", {})["MC_ArchTree_iter_fixed_%s.cfg" % t] = round(time.time() - t0, 1)
     msgs = ["iterator that does not append Compute leaves + cost loop that multiplies in the own fanout: "
@@ -236,13 +236,17 @@ def role_a(ck: Check):
     expect_bad = [
         ("MC_ArchTree_iter_coded_parents.cfg", "iterator as coded (appends Compute leaves): YieldedParentsAreAncestors"),
         ("MC_ArchTree_iter_coded_costs.cfg", "iterator + cost loop as coded: CostsCorrect"),
-        ("MC_ArchTree_iter_noown_costs.cfg", "repaired iterator, own fanout still not counted: CostsCorrect"),
-        ("MC_ArchTree_iter_sib_costs.cfg", "own fanout counted, iterator as coded: CostsCorrect"),
-        ("MC_ArchTree_iter_alias.cfg", "any variant, list object read after the iteration: RetainedParentsAreAncestors"),
     ]
+    if ck.tier == "thorough":
+        expect_bad += [
+            ("MC_ArchTree_iter_noown_costs.cfg", "repaired iterator, own fanout still not counted: CostsCorrect"),
+            ("MC_ArchTree_iter_sib_costs.cfg", "own fanout counted, iterator as coded: CostsCorrect"),
+            ("MC_ArchTree_iter_alias.cfg", "any variant, list object read after the iteration: "
+                                           "RetainedParentsAreAncestors"),
+        ]
     for cfg, what in expect_bad:
         t0 = time.time()
-        r = ck.tlc(MODULE, cfg, timeout=1200)
+        r = ck.tlc(MODULE, cfg, timeout=1200, workers=4)
         ck.extra.setdefault("phase_wall_s", {})[cfg] = round(time.time() - t0, 1)
         if r.ok or "is violated" not in (r.violated or ""):
             raise Machinery("role-A lemma: %s must be violated, but TLC says %s (%s); the model is too weak\n%s"
@@ -253,13 +257,17 @@ def role_a(ck: Check):
 
 def generator_plan(ck: Check, tag: str):
     """(cfg, tlc kwargs, exhaustive?)"""
-    plan = [("MC_ArchTree_%s_full4.cfg" % tag, {}, True),
-            ("MC_ArchTree_%s_s6.cfg" % tag, {}, True)]
-    if ck.tier == "thorough":
-        plan += [("MC_ArchTree_%s_s7.cfg" % tag, {}, True),
-                 ("MC_ArchTree_%s_full5.cfg" % tag, {}, True),
-                 ("MC_ArchTree_%s_s8.cfg" % tag, {}, True)]
-    nrand, depth = (1, 300) if ck.tier == "quick" else (4, 1500)
+    w = {"workers": 4}
+    if ck.tier == "quick":
+        plan = [("MC_ArchTree_%s_full4q.cfg" % tag, w, True),
+                ("MC_ArchTree_%s_s6.cfg" % tag, w, True)]
+        nrand, depth = 1, 200
+    else:
+        plan = [("MC_ArchTree_%s_full4.cfg" % tag, w, True),
+                ("MC_ArchTree_%s_s6.cfg" % tag, w, True),
+                ("MC_ArchTree_%s_s7.cfg" % tag, w, True),
+                ("MC_ArchTree_%s_full5.cfg" % tag, {"workers": 8}, True)]
+        nrand, depth = 4, 1000
     for i in range(nrand):
         plan.append(("MC_ArchTree_%s_rand.cfg" % tag,
                      {"simulate": "num=1", "depth": depth, "seed": ck.seed * 1000 + i + 1, "workers": 1}, False))
